@@ -60,6 +60,13 @@ func (o *AccountingOracle) Event(r *Run, ssn *framework.Session, ev *framework.E
 	if os.Getenv("KAISIM_DEBUG_EVENTS") != "" {
 		t := ev.Task
 		line := fmt.Sprintf("EVENT #%d cycle=%d action=%s %s task=%s status=%v node=%s groups=%v virt=%v", o.events, r.cycle, r.Sched.Obs.action, kind, t.Name, t.Status, t.NodeName, t.GPUGroups, t.IsVirtualStatus)
+		if attrs, _ := proportion.QueueAttributesForSim(ssn.PluginForSim("proportion")); attrs != nil {
+			if j := ssn.ClusterInfo.PodGroupInfos[t.Job]; j != nil {
+				if qa := attrs[j.Queue]; qa != nil {
+					line += fmt.Sprintf(" | queue %s alloc cpu=%v mem=%v gpu=%v", j.Queue, qa.ResourceShare(rs.CpuResource).Allocated, qa.ResourceShare(rs.MemoryResource).Allocated, qa.ResourceShare(rs.GpuResource).Allocated)
+				}
+			}
+		}
 		if ni := ssn.ClusterInfo.Nodes[t.NodeName]; ni != nil {
 			line += fmt.Sprintf(" | node idle=%v used=%v rel=%v pods=", ni.Idle, ni.Used, ni.Releasing)
 			for _, p := range sortedPodInfos(ni.PodInfos) {
